@@ -307,21 +307,24 @@ impl Case {
 /// The program compiled, serialized and executed in-process in a fresh thread, after `history` programs were
 /// compiled and executed in that same thread (a thread is the unit in which FML could carry state between runs).
 pub fn in_process_after(history: &[String], source: &str) -> Option<(Option<Vec<u8>>, String, &'static str)> {
-    let history: Vec<String> = history.to_vec();
-    let source = source.to_string();
+    // Parsing happens here, in the worker (one reusable parser per worker thread — the generated lexer does not give its match
+    // caches back, and a fresh parser per fresh thread cost ~0.6 MB per program); what must run in a fresh thread is everything
+    // that touches hash maps and VM state: compile, serialize, run.
+    let history_asts: Vec<crate::parser::AST> = history.iter().filter_map(|h| vm::parse(h).ok()).collect();
+    let ast = vm::parse(source).ok();
     std::thread::Builder::new().stack_size(64 << 20).spawn(move || {
-        for h in &history {
-            if let Ok(p) = vm::compile_source(h) {
+        for h in &history_asts {
+            if let Ok(p) = vm::compile(h) {
                 let _ = vm::run(&p, &vm::RunCfg { step_budget: 60_000, ..Default::default() });
             }
         }
-        match vm::compile_source(&source) {
-            Ok(p) => {
+        match ast.as_ref().map(vm::compile) {
+            Some(Ok(p)) => {
                 let bytes = vm::serialize_to_vec(&p).ok();
                 let r = vm::run(&p, &vm::RunCfg { step_budget: 400_000, ..Default::default() });
                 (bytes, r.output, r.end.class())
             }
-            Err(_) => (None, String::new(), "does_not_compile"),
+            _ => (None, String::new(), "does_not_compile"),
         }
     }).ok()?.join().ok()
 }
@@ -434,10 +437,11 @@ fn exercise(name: &str, spec: &ProgSpec, rng: &mut Rng, n_tuples: usize, history
     }
     let src_digest = digest_bytes(source.as_bytes());
     // the in-process view (orchestrator build, uncontrolled RandomState keys per thread: a second witness)
+    let parsed = vm::parse(&source).ok();
     let inproc: Vec<Option<Vec<u8>>> = (0..3).map(|_| {
-        let s = source.clone();
+        let ast = parsed.clone();
         std::thread::Builder::new().stack_size(64 << 20).spawn(move || {
-            vm::compile_source(&s).ok().and_then(|p| vm::serialize_to_vec(&p).ok())
+            ast.and_then(|a| vm::compile(&a).ok()).and_then(|p| vm::serialize_to_vec(&p).ok())
         }).unwrap().join().unwrap_or(None)
     }).collect();
     out.evaluations += 3;
